@@ -19,6 +19,8 @@ type Generator struct {
 	globalUnwrap *GlobalUnwrapInfo // Global unwrap info collected from all files
 	// mockVisiting holds the messages currently being populated by the mock generator.
 	mockVisiting map[protoreflect.FullName]bool
+	// mockMessages counts the messages populated for the response being generated.
+	mockMessages int
 }
 
 // Options configures the generator.
